@@ -314,7 +314,11 @@ fn exec_op(arena: &'static sync::Arena, tid: usize, op: &Value, next_id: &mut u3
             let mut st = c.m.lock().unwrap();
             let h = &mut st.handles.get_mut(&id).unwrap().0;
             let m = h.meta();
-            if k == "fill" {
+            // a handle that reaches beyond the arena is logged as it is but never written through (the harness must
+            // survive what it reports)
+            let inside = m[2] + m[3] <= arena.capacity() as u64;
+            if !inside {
+            } else if k == "fill" {
               h.fill(pattern(id));
             } else if k == "write" {
               // adversarial 8-byte value at byte offset `at` inside the accessible range (through the handle's pointer)
